@@ -390,7 +390,11 @@ def judge(rec, nested, script, monotone=True):
                 if count not in largest_ok or abs(H - HMAX) > 1e-9:
                     out["C02"].append(("scripted:unmet-large-not-largest-allowed-at-max-height", f"{rec['kind']} cap {cap}: returned {count} bh at {H}; largest allowed {sorted(x for x in largest_ok if x)}"))
         if rec["escape_small"] and not rec["escape_large"]:
-            if count != smallest or abs(H - HMIN) > 1e-9:
+            # in a nested search the message may come from a sub-search that did not decide the outcome (one candidate list whose
+            # smallest field is over-satisfied at minimum height, while the answer comes from another list): a returned design that is
+            # a regular one - interior height, excess zero - is not an "unmet" outcome and is not judged by this clause
+            regular = rec["kind"] in ("2d", "zd") and HMIN + 1e-9 < H < HMAX - 1e-9 and abs(e_final) <= 1e-3
+            if (count != smallest or abs(H - HMIN) > 1e-9) and not regular:
                 out["C02"].append(("scripted:unmet-small-not-smallest-at-min-height", f"{rec['kind']} cap {cap}: returned {count} bh at {H}"))
     return out
 
